@@ -281,8 +281,8 @@ def run_check(pid, tier, base_seed, out=sys.stdout):
         seen_inv.add(key)
         if len(seen_inv) > 4:
             break
-        spec = r["spec"]
-        if r.get("trace") is not None and isinstance(spec, dict) and "sched" in spec:
+        spec = r.get("resolved_spec") or r["spec"]
+        if r.get("trace") is not None and isinstance(spec, dict) and "sched" in spec and not r.get("resolved_spec"):
             spec = json.loads(json.dumps(spec))
             spec["sched"]["script"] = r["trace"]
         small, n_exec = minimise(pid, mod, spec, v)
